@@ -105,6 +105,20 @@ type ReqPlan struct {
 	API        string `json:"api,omitempty"` // "" = Do, "GetTimeout" = HostClient.GetTimeout (40 ms / 300 ms / 2 s)
 	Ctx        string `json:"ctx"`           // "live", "cancelled-before", "cancelled-during"
 	PreDelay   int    `json:"pre_delay_us"`
+	CloseForm  int    `json:"close_form,omitempty"` // fault ok+Connection:close: which spelling of the header the peer uses (closeForms)
+	BodySize   int    `json:"body_size,omitempty"`  // 0 = the short body "id=<id>"; otherwise the response body is padded to this many bytes
+}
+
+// closeForms: ways in which a response says that the connection ends with this exchange. Connection
+// options are a comma-separated list of case-insensitive tokens, possibly spread over several lines.
+var closeForms = []string{
+	"Connection: close\r\n",
+	"Connection: Close\r\n",
+	"Connection: CLOSE\r\n",
+	"Connection: close, x-foo\r\n",
+	"Connection: x-foo, close\r\n",
+	"Connection: close\r\nConnection: x-foo\r\n",
+	"Connection: x-foo\r\nConnection: close\r\n",
 }
 
 type Plan struct {
@@ -114,6 +128,7 @@ type Plan struct {
 	MaxConnDurationMs int         `json:"max_conn_duration_ms,omitempty"`         // 0 = unlimited; on older connections the client announces Connection: close
 	CloseIdleAtUs     []int       `json:"close_idle_connections_at_us,omitempty"` // CloseIdleConnections() is called from another goroutine at these offsets
 	DialFaults        []int       `json:"dial_faults"`                            // per dial: 0 ok, 1 error, 2 slow
+	Stream            bool        `json:"response_body_stream,omitempty"`         // the client delivers response bodies as streams (ResponseBodyStream)
 	Yields            []int       `json:"yield_table,omitempty"`                  // action at the n-th pool lock boundary (mod len): 0 none, 1 Gosched, 2 20us, 3 300us, 4 2ms
 }
 
@@ -138,7 +153,9 @@ type world struct {
 	overshoots int32
 	ends       map[int]*clientEnd // conn id -> client end
 	announced  map[int]string     // conn id -> id of the request on which the client announced Connection: close
-	maxLate    int64              // worst observed wake-up lateness of the heartbeat (ns)
+	mustClose  map[int]string     // conn id -> why the exchange on it did not complete cleanly (the peer ended it inside the response)
+	bodySize   map[string]int
+	maxLate    int64 // worst observed wake-up lateness of the heartbeat (ns)
 	// reuse of a connection after a stalled exchange: a violation only if the client's call for
 	// the stalled exchange really failed (decided after all calls returned, from the call results —
 	// under heavy machine load the 40 ms read deadline can lose the race against the 130 ms stall,
@@ -156,6 +173,14 @@ func (w *world) violate(f string, a ...interface{}) {
 	if len(w.violations) < 10 {
 		w.violations = append(w.violations, fmt.Sprintf(f, a...))
 	}
+	w.mu.Unlock()
+}
+
+// failed records that the exchange on a connection ended inside the response: whatever the caller
+// does with what it got, the client must close that connection, not keep it for reuse.
+func (w *world) failed(connID int, why string) {
+	w.mu.Lock()
+	w.mustClose[connID] = why
 	w.mu.Unlock()
 }
 
@@ -252,8 +277,19 @@ func (w *world) dial(n int, addr string) (net.Conn, error) {
 	return ce, nil
 }
 
-func response(id string, extra string) []byte {
+func bodyOf(id string, size int) string {
 	body := "id=" + id
+	if size > len(body) {
+		body += ";" + strings.Repeat("p", size-len(body)-1)
+	}
+	return body
+}
+
+func (w *world) response(id string, extra string) []byte {
+	w.mu.Lock()
+	size := w.bodySize[id]
+	w.mu.Unlock()
+	body := bodyOf(id, size)
 	return []byte(fmt.Sprintf("HTTP/1.1 200 OK\r\nContent-Length: %d\r\n%s\r\n%s", len(body), extra, body))
 }
 
@@ -329,26 +365,47 @@ func (w *world) peer(connID int, c net.Conn) {
 		done := func() { atomic.AddInt32(&w.busyPeers, -1) }
 		switch fault {
 		case fOK:
-			c.Write(response(id, "")) //nolint:errcheck
+			c.Write(w.response(id, "")) //nolint:errcheck
 		case fContinue100:
 			c.Write([]byte("HTTP/1.1 100 Continue\r\n\r\n")) //nolint:errcheck
-			c.Write(response(id, ""))                        //nolint:errcheck
+			c.Write(w.response(id, ""))                      //nolint:errcheck
 		case fOKClose:
-			c.Write(response(id, "Connection: close\r\n")) //nolint:errcheck
-			tainted = "the response to id=" + id + " carried Connection: close"
+			form := closeForms[0]
+			w.mu.Lock()
+			for _, g := range w.plan.Goroutines {
+				for _, r := range g {
+					if r.ID == id {
+						form = closeForms[r.CloseForm%len(closeForms)]
+					}
+				}
+			}
+			w.mu.Unlock()
+			c.Write(w.response(id, form)) //nolint:errcheck
+			tainted = fmt.Sprintf("the response to id=%s carried %q", id, form)
 		case fOKSilentClose:
-			c.Write(response(id, "")) //nolint:errcheck
+			c.Write(w.response(id, "")) //nolint:errcheck
 			done()
 			return
 		case fCloseBeforeFirstByte:
+			w.failed(connID, "the peer closed before the first byte of the response to id="+id)
 			done()
 			return
 		case fCloseMidHeader:
 			c.Write([]byte("HTTP/1.1 200 OK\r\nContent-Le")) //nolint:errcheck
+			w.failed(connID, "the peer closed inside the header of the response to id="+id)
 			done()
 			return
 		case fCloseMidBody:
-			c.Write([]byte("HTTP/1.1 200 OK\r\nContent-Length: 50\r\n\r\nid=" + id)) //nolint:errcheck
+			full := w.response(id, "")
+			w.mu.Lock()
+			size := w.bodySize[id]
+			w.mu.Unlock()
+			if size == 0 {
+				c.Write([]byte("HTTP/1.1 200 OK\r\nContent-Length: 50\r\n\r\nid=" + id)) //nolint:errcheck
+			} else {
+				c.Write(full[:len(full)-size/2]) //nolint:errcheck
+			}
+			w.failed(connID, fmt.Sprintf("the peer closed inside the body (%d bytes announced) of the response to id=%s", size, id))
 			done()
 			return
 		case fSilentCloseThenStall:
@@ -380,7 +437,7 @@ func (w *world) peer(connID int, c net.Conn) {
 			}
 			w.mu.Unlock()
 			c.SetWriteDeadline(time.Now().Add(200 * time.Millisecond)) //nolint:errcheck
-			c.Write(response(id, ""))                                  //nolint:errcheck
+			c.Write(w.response(id, ""))                                //nolint:errcheck
 			if timeouted {
 				stalledID = id
 			}
@@ -402,14 +459,15 @@ type callResult struct {
 }
 
 func runPlan(p *Plan) (string, *world) {
-	w := &world{plan: p, faults: map[string]int{}, recv: map[string]int{}, method: map[string]string{}, ends: map[int]*clientEnd{}, announced: map[int]string{}}
+	w := &world{plan: p, faults: map[string]int{}, recv: map[string]int{}, method: map[string]string{}, ends: map[int]*clientEnd{}, announced: map[int]string{}, mustClose: map[int]string{}, bodySize: map[string]int{}}
 	for _, g := range p.Goroutines {
 		for _, r := range g {
 			w.faults[r.ID] = r.Fault
+			w.bodySize[r.ID] = r.BodySize
 		}
 	}
 	opts := http1.ClientOptions{MaxConns: p.MaxConns, MaxConnWaitTimeout: time.Duration(p.WaitTimeout) * time.Millisecond, MaxIdleConnDuration: time.Hour, DialTimeout: time.Second,
-		MaxConnDuration: time.Duration(p.MaxConnDurationMs) * time.Millisecond}
+		MaxConnDuration: time.Duration(p.MaxConnDurationMs) * time.Millisecond, ResponseBodyStream: p.Stream}
 	if len(p.CloseIdleAtUs) > 0 {
 		atomic.StoreInt32(&widenClose, 1)
 	} else {
@@ -510,7 +568,12 @@ func runPlan(p *Plan) (string, *world) {
 				cancel()
 				res := callResult{id: r.ID, err: err, elapsed: el}
 				if err == nil {
-					res.body = string(resp.Body())
+					// (in stream mode this reads the body stream to its end; a stream that breaks is a failed call)
+					b, berr := resp.BodyE()
+					res.body = string(b)
+					if berr != nil {
+						res.err = fmt.Errorf("reading the response body: %w", berr)
+					}
 					if r.API == "GetTimeout" {
 						res.body = string(getBody)
 					}
@@ -544,7 +607,7 @@ func runPlan(p *Plan) (string, *world) {
 	}
 	for _, res := range results {
 		r := byID[res.id]
-		if res.err == nil && res.body != "id="+res.id {
+		if res.err == nil && res.body != bodyOf(res.id, r.BodySize) {
 			return fmt.Sprintf("call id=%s returned the response %q: not the response to its own request", res.id, res.body), w
 		}
 		if timingOK && r.Timeout && res.elapsed > readTimeout+slack {
@@ -615,6 +678,15 @@ func runPlan(p *Plan) (string, *world) {
 		}
 		return "at quiescence: " + msg, w
 	}
+	// a connection whose exchange ended inside the response must have been closed by the client
+	w.mu.Lock()
+	for cid, why := range w.mustClose {
+		if ce := w.ends[cid]; ce != nil && atomic.LoadInt32(&ce.localClosed) == 0 {
+			w.mu.Unlock()
+			return fmt.Sprintf("conn%d: %s, yet after all calls returned the client has not closed the connection: it was put back for reuse although its exchange did not complete (response body stream: %v)", cid, why, p.Stream), w
+		}
+	}
+	w.mu.Unlock()
 	// a connection on which the client announced Connection: close must have been closed by the client
 	w.mu.Lock()
 	for cid, rid := range w.announced {
@@ -699,12 +771,24 @@ func genPlan(t *rapid.T) *Plan {
 			}
 			r.Ctx = rapid.SampledFrom([]string{"live", "live", "live", "live", "cancelled-before", "cancelled-during"}).Draw(t, "ctx")
 			r.PreDelay = rapid.SampledFrom([]int{0, 0, 50, 500, 3000}).Draw(t, "preDelay")
+			if r.Fault == fOKClose {
+				r.CloseForm = rapid.IntRange(0, len(closeForms)-1).Draw(t, "closeForm")
+			}
+			if r.API == "" {
+				r.BodySize = rapid.SampledFrom([]int{0, 0, 0, 100, 8192, 8193, 10000, 20000}).Draw(t, "bodySize")
+				if r.Fault == fCloseMidBody {
+					// the peer sends half of the body: with 20000 or more the cut lies behind the 8 KiB that
+					// a streaming client reads before it hands the response to the caller
+					r.BodySize = rapid.SampledFrom([]int{0, 10000, 20000, 20000, 40000}).Draw(t, "cutBodySize")
+				}
+			}
 			rs = append(rs, r)
 			n++
 		}
 		p.Goroutines = append(p.Goroutines, rs)
 	}
 	p.MaxConnDurationMs = rapid.SampledFrom([]int{0, 0, 1, 4}).Draw(t, "maxConnDurationMs")
+	p.Stream = rapid.IntRange(0, 2).Draw(t, "responseBodyStream") == 0
 	if rapid.IntRange(0, 2).Draw(t, "closeIdleConcurrently") == 0 {
 		at := 0
 		for i := rapid.IntRange(2, 10).Draw(t, "nCloseIdle"); i > 0; i-- {
@@ -735,6 +819,12 @@ func classify(p *Plan) (bool, []string) {
 				faults++
 				cls = append(cls, "fault-"+faultNames[r.Fault])
 			}
+			if r.Fault == fOKClose && r.CloseForm > 0 {
+				cls = append(cls, "connection-close-spelled-otherwise")
+			}
+			if r.Fault == fCloseMidBody && r.BodySize/2 > 8192 && p.Stream {
+				cls = append(cls, "streamed-body-cut-behind-the-pre-read-part")
+			}
 			if r.Ctx != "live" {
 				faults++
 				cls = append(cls, "ctx-"+r.Ctx)
@@ -748,6 +838,9 @@ func classify(p *Plan) (bool, []string) {
 	}
 	if len(p.Yields) > 0 {
 		cls = append(cls, "schedule-perturbed-at-pool-lock-boundaries")
+	}
+	if p.Stream {
+		cls = append(cls, "response-body-stream")
 	}
 	if p.MaxConnDurationMs > 0 {
 		cls = append(cls, "max-conn-duration")
@@ -836,7 +929,7 @@ func TestC10Regress(t *testing.T) {
 					}
 				}
 				time.Sleep(700 * time.Millisecond)
-				sc.Write(response("A", "")) //nolint:errcheck
+				sc.Write([]byte("HTTP/1.1 200 OK\r\nContent-Length: 4\r\n\r\nid=A")) //nolint:errcheck
 			}()
 			return cc, nil
 		}
@@ -866,6 +959,33 @@ func TestC10Regress(t *testing.T) {
 			msg := fmt.Sprintf("call with a 100 ms request timeout returned after %v (err=%v) although the scheduler was never more than %v late: the wait for a free connection (MaxConnWaitTimeout 300 ms) is not bounded by the request timeout", el, err, late)
 			ev.Fail(prop, "regress", map[string]string{"case": "D23"}, msg)
 			t.Errorf("D23: %s", msg)
+		}
+	}
+	// Saved inputs D30 (every spelling of the close option) and D31 (streamed body cut behind the
+	// pre-read part): one caller, the faulty exchange last on its connection, so that nothing but the
+	// client's own decision closes it.
+	for form := range closeForms {
+		p := &Plan{MaxConns: 1, Goroutines: [][]ReqPlan{{
+			{ID: "g0r0", Method: "GET", Fault: fOKClose, FaultN: faultNames[fOKClose], Ctx: "live", CloseForm: form},
+			{ID: "g0r1", Method: "POST", Fault: fOK, FaultN: faultNames[fOK], Ctx: "live"},
+		}}}
+		rec.Case(true, ev.HashString("D30", fmt.Sprint(form)), "regress-D30")
+		if msg, w := runPlan(p); msg != "" && !strings.HasPrefix(msg, inconclusive) {
+			ev.Fail(prop, "regress", map[string]interface{}{"case": "D30", "plan": p}, msg)
+			t.Errorf("D30 %q: %s\n  %s", closeForms[form], msg, strings.Join(w.log, "\n  "))
+		}
+	}
+	for _, size := range []int{10000, 20000, 40000} {
+		for _, stream := range []bool{true, false} {
+			p := &Plan{MaxConns: 1, Stream: stream, Goroutines: [][]ReqPlan{{
+				{ID: "g0r0", Method: "GET", Fault: fOK, FaultN: faultNames[fOK], Ctx: "live", BodySize: size},
+				{ID: "g0r1", Method: "GET", Fault: fCloseMidBody, FaultN: faultNames[fCloseMidBody], Ctx: "live", BodySize: size},
+			}}}
+			rec.Case(true, ev.HashString("D31", fmt.Sprint(size, stream)), "regress-D31")
+			if msg, w := runPlan(p); msg != "" && !strings.HasPrefix(msg, inconclusive) {
+				ev.Fail(prop, "regress", map[string]interface{}{"case": "D31", "plan": p}, msg)
+				t.Errorf("D31 size=%d stream=%v: %s\n  %s", size, stream, msg, strings.Join(w.log, "\n  "))
+			}
 		}
 	}
 }
